@@ -33,6 +33,9 @@ type sendSpec struct {
 	pcode   int64
 	license string // per-send override ("" = client default)
 	text    string
+	// setDefault: before this send the sender assigns a new default licence to the client (single
+	// sender scenarios only): the frame must carry the hash of the licence in force for that send
+	setDefault string
 }
 
 type scen struct {
@@ -56,7 +59,11 @@ func (s scen) String() string {
 			if len(tx) > 24 {
 				tx = fmt.Sprintf("%s...(%d bytes)", tx[:8], len(tx))
 			}
-			p = append(p, fmt.Sprintf("%s/pcode=%d/lic=%q", tx, x.pcode, x.license))
+			nd := ""
+			if x.setDefault != "" {
+				nd = fmt.Sprintf("/new-default=%q", x.setDefault)
+			}
+			p = append(p, fmt.Sprintf("%s/pcode=%d/lic=%q%s", tx, x.pcode, x.license, nd))
 		}
 		ts = append(ts, strings.Join(p, ";"))
 	}
@@ -72,8 +79,8 @@ func mkPack(sp sendSpec) pack.Pack {
 	return t
 }
 
-func wantFrame(sp sendSpec) []byte {
-	lic := defLicense
+func wantFrame(sp sendSpec, def string) []byte {
+	lic := def
 	if sp.license != "" {
 		lic = sp.license
 	}
@@ -123,8 +130,12 @@ func (s scen) scenario() dfs.Scenario {
 		ev := 0
 		producersLeft := len(s.threads)
 		for ti, specs := range s.threads {
+			def := defLicense
 			for _, sp := range specs {
-				sends = append(sends, &sendRec{id: len(sends), spec: sp, callEv: -1, retEv: -1, frame: wantFrame(sp)})
+				if sp.setDefault != "" {
+					def = sp.setDefault
+				}
+				sends = append(sends, &sendRec{id: len(sends), spec: sp, callEv: -1, retEv: -1, frame: wantFrame(sp, def)})
 			}
 			_ = ti
 		}
@@ -140,6 +151,9 @@ func (s scen) scenario() dfs.Scenario {
 					x.Yield(sched.Op{Kind: "op:send"})
 					r.callEv = ev
 					ev++
+					if r.spec.setDefault != "" {
+						cl.License = r.spec.setDefault
+					}
 					var opts []wnet.TcpClientOption
 					if r.spec.license != "" {
 						opts = append(opts, wnet.WithLicense(r.spec.license))
@@ -326,6 +340,14 @@ func scenarios(thorough bool) []scen {
 		scen{name: "healthy/sendAndClear/small-huge-small", queue: true, qsize: 1000, clear: true, threads: [][]sendSpec{{a, huge, b}}},
 		scen{name: "healthy/sendAndClear/huge-small", queue: true, qsize: 1000, clear: true, threads: [][]sendSpec{{huge, a}}},
 		scen{name: "healthy/direct/small-huge-small", threads: [][]sendSpec{{a, huge, b}}},
+	)
+	// the default licence changes while the client is in use: default, new default, override, default again
+	a2 := sendSpec{pcode: 1234567, text: "alpha-2", setDefault: "second-default-license"}
+	a3 := sendSpec{pcode: 1234567, text: "alpha-3"}
+	out = append(out,
+		scen{name: "healthy/direct/relicense", threads: [][]sendSpec{{a, a2, b, a3}}},
+		scen{name: "faulty/direct/relicense", threads: [][]sendSpec{{a, a2, a3}}, dialFail: true, cutAll: true, deadline: true},
+		scen{name: "healthy/direct/relicense-first", threads: [][]sendSpec{{a2, a3}}},
 	)
 	return out
 }
